@@ -190,6 +190,12 @@ class Harness:
                 list(e2) != w.by:
             raise Violation('queries on a second model\'s environment are disturbed by the environment under test')
         env = w.model.environment
+        for bad in (lambda: env.get_agents(5), lambda: env.get_agents(X, tag=[1]), lambda: env.get_random_agent('X'),
+                    lambda: env.shuffle(X, 7), lambda: env.get_agents(None)):
+            try:
+                bad()      # a refused (or oddly answered) query leaves nothing behind for the queries that follow
+            except Exception:      # noqa
+                pass
         snap = public_snapshot(w.model, [w.agents[k] for k in self.keys])
         real_rng = w.model.random
         answers = []
